@@ -30,15 +30,16 @@ Proof. exact safe_if_ahead. Qed.
 Print Assumptions C15_safe_if_ahead.
 
 (* The new leader need not be a fresh node: it may have been synced to revisions as a follower
-   (revision.SyncReadRevision -> SetCurrentRevision(r_i); dealt counter = max r_i <> 0). tso.Commit
-   raises the dealt counter to any larger committed value, so with v at or above every stored revision
+   (revision.SyncReadRevision -> SetCurrentRevision(r_i); both counters = max r_i <> 0). tso.Commit
+   raises both counters to any larger value and never lowers one, so with v at or above every stored revision
    and every synced one the node deals from v, and C15_safe_if_ahead applies from Good d v. *)
-Theorem C15_set_current : forall l v, deal (set_current l v) = N.max (deal l) v /\ committed (set_current l v) = v.
+Theorem C15_set_current : forall l v,
+  deal (set_current l v) = N.max (deal l) v /\ committed (set_current l v) = N.max (committed l) v.
 Proof. exact set_current_spec. Qed.
 Print Assumptions C15_set_current.
 
 Theorem C15_safe_if_ahead_follower : forall d v l,
-  WF d -> dmax d <= v -> deal l <= v ->
+  WF d -> dmax d <= v -> deal l <= v -> committed l <= v ->
   set_current l v = mkL v v /\ Good d (deal (set_current l v)).
 Proof. exact safe_if_ahead_follower. Qed.
 Print Assumptions C15_safe_if_ahead_follower.
@@ -147,22 +148,15 @@ Theorem C15_flag_after_install : forall ls,
 Proof. exact flag_after_install. Qed.
 Print Assumptions C15_flag_after_install.
 
-(* The new leader's READ revision. Full-strength statement: once the callback has installed the version,
-   the committed revision stays at or above it, for every interleaving with client requests and with
-   follower reads (revision.SyncReadRevision: `if IsLeader() return`, fetch from the leader,
-   installRevision -> SetCurrentRevision) that were already past their IsLeader() check.
-   REFUTED (finding C15-F2, reproduced on the real code): the answer of the old leader may arrive after
-   the node has become leader and is installed over the new base. It holds for every run in which no
-   such late install happens after the callback's SetCurrentRevision. *)
-Theorem C15_committed_follows_refuted : ~ committed_follows_statement.
-Proof. exact committed_follows_refuted. Qed.
-Print Assumptions C15_committed_follows_refuted.
-
-Theorem C15_committed_follows_except_F2 : forall ls x,
-  node_inv x -> committed_ok x -> forallb (fun l => negb (is_sync_install l)) ls = true ->
-  committed_ok (fst (nrun x ls)).
-Proof. exact committed_follows_except. Qed.
-Print Assumptions C15_committed_follows_except_F2.
+(* The new leader's READ revision: once the callback has installed the version, the committed revision
+   stays at or above it, for every interleaving with client requests and with follower reads
+   (revision.SyncReadRevision: `if IsLeader() return`, fetch from the leader, installRevision ->
+   SetCurrentRevision) that were already past their IsLeader() check and whose answer from the old
+   leader arrives after the take-over: tso.Commit only raises the committed revision.
+   (This was finding C15-F2 while Commit was a plain store; Example C15_F2_regression keeps its witness.) *)
+Theorem C15_committed_follows : forall ls, committed_ok (fst (nrun node0 ls)).
+Proof. exact committed_follows. Qed.
+Print Assumptions C15_committed_follows.
 
 (* the oracle reports code 1 only on Badger (and then only when the base is behind, by its definition) *)
 Theorem C15_oracle_code : forall c k, c15_oracle c = Some k -> k = 0 \/ (k = 1 /\ c_engine c = EBadger).
@@ -230,13 +224,8 @@ Example C15_flag_order :
   = [None; None; None; None; None; None; Some 101; Some 102].
 Proof. vm_compute. reflexivity. Qed.
 
-(* C15-F2 spelled out: a read passes the leader check, the node wins (version 100 installed, flag up),
-   the old leader's answer 50 arrives: committed revision 50, dealt counter still 100 *)
-Example C15_F2_witness :
-  n_lead (fst (nrun node0 [NSyncCheck; NParse 100; NInstall; NFlag; NSyncInstall 50])) = mkL 100 50.
+(* the witness of the former finding C15-F2: a read passes the leader check, the node wins (version 100
+   installed, flag up), the old leader's answer 50 arrives late: the committed revision stays at 100 *)
+Example C15_F2_regression :
+  n_lead (fst (nrun node0 [NSyncCheck; NParse 100; NInstall; NFlag; NSyncInstall 50])) = mkL 100 100.
 Proof. vm_compute. reflexivity. Qed.
-(* the hypotheses of C15_committed_follows_except_F2 hold right after the install *)
-Example C15_F2_except_inhabited :
-  let x := fst (nrun node0 [NSyncCheck; NParse 100; NInstall]) in
-  node_inv x /\ committed_ok x /\ forallb (fun l => negb (is_sync_install l)) [NFlag; NRequest] = true.
-Proof. vm_compute. repeat split; discriminate. Qed.
